@@ -14,7 +14,9 @@ INVS = ["Coherent", "Symmetric", "Emit"]
 def run(res, pool, tier, seed):
     if tier == "quick":
         jobs = [dict(module="MC_Rel.tla", tag="dirs1", invariants=INVS,
-                     constants=dict(B=1, KA=set(KINDS), KB=set(KINDS), SEED=seed % 1000, NSHARD=2))]
+                     constants=dict(B=1, KA=set(KINDS), KB=set(KINDS), SEED=seed % 1000, NSHARD=2)),
+                dict(module="MC_Rel.tla", tag="dirs2", invariants=INVS, timeout=1500,
+                     constants=dict(B=2, KA=set(KINDS), KB=set(KINDS), SEED=seed % 1000, NSHARD=40))]
     else:
         jobs = [dict(module="MC_Rel.tla", tag="dirs1", invariants=INVS,
                      constants=dict(B=1, KA=set(KINDS), KB=set(KINDS), SEED=seed % 1000, NSHARD=1)),
